@@ -508,6 +508,17 @@ pub fn run_c05(ctx: &mut Ctx) {
             let pairs: Vec<(Vec<u8>, Vec<u8>)> = gen_pairs(&mut rng, false).into_iter().filter(|(n, v)| n.len() + v.len() + 13 <= b).collect();
             let nls = rng.below(4);
             let mut case = gen_stream_case(&mut rng, nls, mc, false);
+            // every third case: one long record (> 256 bytes) so that a caller stopping mid-record leaves every possible amount outstanding
+            if rng.chance(1, 3) && !case.contents.is_empty() {
+                let (s0, _) = case.contents[0];
+                let len = 257 + rng.usize_below(1300);
+                let c = rng.bytes(len);
+                case.recs.retain(|r| !(r.rtype == s0 && r.id == case.id));
+                let mut front = vec![Rec::new(s0, case.id, c.clone(), pad_bytes(&mut rng)), Rec::new(s0, case.id, vec![], vec![])];
+                front.extend(case.recs.drain(..));
+                case.recs = front;
+                case.contents[0].1 = c;
+            }
             // a one-request-at-a-time client sends no BeginRequest while a request is in progress; with unread input such a
             // record would reach the next request parser in its idle state and legitimately start a request
             case.recs.retain(|r| r.rtype != T_BEGIN);
@@ -574,7 +585,7 @@ pub fn run_c05(ctx: &mut Ctx) {
                 if d.boundary { break; }
                 if d.free == 0 { d.simple(&mut log, &mut im, "str.compress"); }
                 let lim = end_of_req.max(pos);
-                let n = if pos < lim { (1 + rng.usize_below(64)).min(lim - pos).min(d.free) } else { 0 };
+                let n = if pos < lim { (if ci % 2 == 0 { 1 } else { 1 + rng.usize_below(64) }).min(lim - pos).min(d.free) } else { 0 };
                 if !d.parse(&mut log, &mut im, &mut or, &wire[pos..pos + n], None) && d.last_err.as_deref() != Some("abort") { break; }
                 pos += n;
                 if pos >= lim && n == 0 && !d.boundary { break; }
